@@ -510,24 +510,35 @@ def with_pool_faults(lines, pools, nslot, pid, k, count, recover):
     return out
 
 
-def ledger_ok(ol):
+def ledger_text(ol):
+    """ledger events of one run as driver input (one `reset` per pool)"""
     per = {}
     for l in ol:
         if l.startswith("LEDGER "):
             w = l.split()
             per.setdefault(w[1], []).append(" ".join(w[2:]))
-    text, n = [], 0
+    text = []
     for pid in sorted(per):
         text.append("reset")
         text += per[pid]
-        n += len(per[pid])
+    return text
+
+
+def ledger_validate(batch):
+    """batch: [(script lines, ledger text)]; one driver call; returns (events, [(script, offending event)])"""
+    text, owner = [], []
+    for i, (_, t) in enumerate(batch):
+        text += t
+        owner += [i] * len(t)
     if not text:
-        return True, 0, None
-    res = drv("c18ledger", "\n".join(text) + "\n")
-    for i, r in enumerate(res):
-        if r == "violation" or r == "bad-op":
-            return False, n, text[i]
-    return True, n, None
+        return 0, []
+    res = drv("c18ledger", "\n".join(text) + "\n", timeout=1200)
+    bad, seen = [], set()
+    for j, r in enumerate(res):
+        if (r == "violation" or r == "bad-op") and owner[j] not in seen:
+            seen.add(owner[j])
+            bad.append((batch[owner[j]][0], text[j]))
+    return len(text), bad
 
 
 def ks(n, cap, rng):
@@ -538,11 +549,43 @@ def ks(n, cap, rng):
     return head + rest
 
 
-def run_pools(ck, exe):
+RESET_KEY = "pool-reset-stale-coalescq"
+
+
+def explain_if_known(ck, key, nth=-1):
+    """a broken obligation that a line of KNOWN_FINDINGS.txt accounts for is marked `explained` (see common.Check.finish)"""
+    if any(p == "C18" and k == key for (p, k, _) in common.known_findings()):
+        ck.obligations[nth]["explained"] = True
+
+
+def run_reset_race(ck, exe):
+    """standing probe: pool_reset right after a multi-threaded phase.  Backend::reset() must forget the delayed-coalescing
+    queue, otherwise a block left in it is put into the bins again after its memory was re-issued (double hand-out: crash /
+    overlap / pattern).  The window is a race (about 7% of the runs of this scenario on the unfixed tree), hence the repetition."""
+    lines = open(os.path.join(common.ROOT, "harness/c18/reset_race.txt")).read().split("\n")[:-1]
+    n = 90 if ck.tier == "quick" else 500
+    bad = None
+    for i in range(n):
+        v, _ = run_lines(exe, lines, timeout=120)
+        ck.count(len(lines), ("reset-race",))
+        if v:
+            bad = (i, v)
+            break
+    ck.traces_validated += n if bad is None else bad[0] + 1
+    ck.oblige("monitor:pool_reset after a multi-threaded phase hands out every byte once (3 threads x 2 pools, reset, 3 threads; %d repetitions)" % n,
+              "correspondence", bad is None, bad)
+    if bad:
+        explain_if_known(ck, RESET_KEY)
+        ck.counterexample(RESET_KEY, "pool_reset after a multi-threaded phase: memory handed out twice (run %d of the scenario: %s)" % (bad[0], bad[1][0]),
+                          {"engine": "E-REAL", "harness": "harness/c18/pools.cpp", "script": lines, "observed": bad[1][:3], "runs": 400, "expect": "no-violation"})
+    return bad is not None
+
+
+def run_pools(ck, exe, reset_defect=False):
     quick = ck.tier == "quick"
     rng = ck.rng
-    nscen = 5 if quick else 60
-    cap = 14 if quick else 80
+    nscen = 5 if quick else 24
+    cap = 14 if quick else 40
     bad, ledger_bad = [], []
     runs = events = 0
     for sc in range(nscen):
@@ -550,10 +593,7 @@ def run_pools(ck, exe):
         v, ol = run_lines(exe, lines)
         runs += 1
         raw = {int(l.split()[1]): int(l.split()[2]) for l in ol if l.startswith("RAWCALLS")}
-        ok, n, where = ledger_ok(ol)
-        events += n
-        if not ok:
-            ledger_bad.append((lines, where))
+        batch = [(lines, ledger_text(ol))]
         if v:
             bad.append(("pools-base", lines, v))
         ck.sample({"pool_scenario": lines[:6], "raw_calls": raw}, cap=8)
@@ -571,14 +611,14 @@ def run_pools(ck, exe):
             runs += 1
             nulls = [l for l in ol if l.startswith("done")]
             ck.count(len(fl), ("pool-fault", pools[pid]["fixed"], cnt, rec, k if k < 6 else "k>5", bool(nulls and "nulls=0" not in nulls[0])))
-            ok, n, where = ledger_ok(ol)
-            events += n
-            if not ok:
-                ledger_bad.append((fl, where))
+            batch.append((fl, ledger_text(ol)))
             if v:
                 bad.append(("pool-fault pid=%d k=%d count=%d" % (pid, k, cnt), fl, v))
             if len(bad) >= 3:
                 break
+        n, lb = ledger_validate(batch)
+        events += n
+        ledger_bad += lb
         if len(bad) >= 3:
             break
     ck.traces_validated += runs
@@ -587,9 +627,17 @@ def run_pools(ck, exe):
     ck.oblige("monitor:pools under raw-callback failure at every call index (failure reported, live blocks intact, later success, blocks inside "
               "own regions, pool_identify, fixed pools ask once, regions returned exactly once / none in use / none leaked)", "correspondence",
               not bad, [(n, v[:2]) for n, _, v in bad][:2])
+    attributed = reset_defect and bad and all(v[0].split()[1] in ("crash", "overlap", "pattern", "outside", "after-fail") and any(l.startswith("M reset") for l in ls)
+                                              for _, ls, v in bad)
+    if attributed:
+        explain_if_known(ck, RESET_KEY)
     ck.oblige("corr:raw-call and hand-out log of every pool is accepted by the Lean PoolLedger", "correspondence", not ledger_bad, [w for _, w in ledger_bad][:2])
     for name, lines, v in bad[:1]:
         kind = v[0].split()[1]
+        if reset_defect and kind in ("crash", "overlap", "pattern", "outside", "after-fail") and any(l.startswith("M reset") for l in lines):
+            # the reset defect found by the standing probe explains corruption after a reset: same finding, no second key
+            log("pool scenario with a reset failed (%s): attributed to %s" % (v[0], RESET_KEY))
+            continue
         small = c17.shrink_script(exe, lines, kind, runs=1 if lines[0] == "P 1" else 2, budget=60) if len(lines) > 12 else lines
         v2, _ = run_lines(exe, small)
         ck.counterexample("pool:%s:%s" % (kind, hashlib.sha1("\n".join(small).encode()).hexdigest()[:8]),
@@ -607,9 +655,33 @@ def oom_base(rng, c, quick):
     return lines
 
 
+INIT_KEY = "init-oom-tls-key-leak"
+
+
+def truncate_ops(lines, nmax):
+    """keep phase / main-thread lines and the first nmax operations"""
+    out, n = [], 0
+    for l in lines:
+        if l.startswith("P ") or l.startswith("M "):
+            out.append(l)
+        elif n < nmax:
+            out.append(l); n += 1
+    return out
+
+
+def init_outage_probe(n):
+    """the OS refuses every mapping from the first allocation on, n allocation attempts, then memory comes back"""
+    return (["P 1", "M fail 1 100000"] + ["0 malloc %d 100" % i for i in range(n)] + ["P 1", "M fail 0 0"] +
+            ["0 !malloc 900000 10", "0 !malloc 900001 100000", "0 free 900000", "0 free 900001"])
+
+
 def with_os_faults(lines, k, count, recover):
     out = []
     first = True
+    if count >= 100000:
+        # a persistent outage that begins before tbbmalloc has initialised makes every call retry the initialisation;
+        # the known defect of that path (INIT_KEY, probed separately) needs > 1000 attempts: stay below
+        lines = truncate_ops(lines, 350)
     for l in lines:
         out.append(l)
         if first and l.startswith("P "):
@@ -630,10 +702,35 @@ def with_os_faults(lines, k, count, recover):
 def run_oom(ck, exe, c):
     quick = ck.tier == "quick"
     rng = ck.rng
-    nscen = 4 if quick else 40
-    cap = 24 if quick else 120
+    nscen = 4 if quick else 30
+    cap = 24 if quick else 60
     bad = []
     runs = 0
+    # fixed probe: recovery after an outage that starts before initialisation and lasts for n allocation attempts
+    probe_bad = None
+    for n in (10, 300, 900, 1100, 3000):
+        v, ol = run_lines(exe, init_outage_probe(n))
+        runs += 1
+        ck.count(n + 6, ("init-outage", n))
+        if v:
+            probe_bad = (n, v)
+            break
+    ck.oblige("monitor:recovery after an OS outage that begins before the allocator initialised (10..3000 failed allocation attempts, then success required)",
+              "correspondence", probe_bad is None, probe_bad)
+    if probe_bad:
+        explain_if_known(ck, INIT_KEY)
+        n, v = probe_bad
+        lo, hi = 0, n                     # smallest number of failed attempts after which the allocator no longer recovers
+        while hi - lo > 1:
+            mid = (lo + hi) // 2
+            if run_lines(exe, init_outage_probe(mid))[0]:
+                hi = mid
+            else:
+                lo = mid
+        ck.counterexample(INIT_KEY, "mmap refused from the first allocation on, %d allocation attempts, then mmap works again: every later scalable_malloc "
+                          "still returns null (%s)" % (hi, v[0]),
+                          {"engine": "E-REAL", "harness": "harness/c17/real.cpp", "define": "VERIF_OOM", "script": init_outage_probe(hi), "observed": v[:3],
+                           "runs": 2, "expect": "no-violation"})
     for sc in range(nscen):
         lines = oom_base(rng, c, quick)
         v, ol = run_lines(exe, lines)
@@ -692,12 +789,11 @@ def run_cxx(ck, exe):
               "containers intact when the underlying allocator throws at call k", "correspondence", not bad, bad[:2])
     for k, cnt, v in bad[:1]:
         ck.counterexample("cxx:k=%d,count=%d" % (k, cnt), v[0], {"engine": "E-REAL", "harness": "harness/c18/cxx.cpp", "args": [str(k), str(cnt)], "expect": "no-violation"})
+    ck.oblige("monitor:C++ allocators throw std::bad_alloc when n*sizeof(T) cannot be represented (scalable_allocator<T>::allocate, "
+              "memory_pool_allocator<T>::allocate)", "correspondence", not notes, sorted(notes))
     if notes:
-        # n*sizeof(T) is not checked by scalable_allocator<T>::allocate / memory_pool_allocator<T>::allocate (the containers of the standard
-        # library check max_size() first).  Recorded in the evidence; turned into a reported finding only when KNOWN_FINDINGS.txt lists it.
-        ck.extra["suspicious"] = sorted(notes)
-        if any(p == "C18" and key == CXX_KEY for (p, key, _) in common.known_findings()):
-            ck.counterexample(CXX_KEY, sorted(notes)[0], {"engine": "E-REAL", "harness": "harness/c18/cxx.cpp", "args": ["0", "1"], "expect_no": " unchecked "})
+        explain_if_known(ck, CXX_KEY)
+        ck.counterexample(CXX_KEY, "; ".join(sorted(notes)), {"engine": "E-REAL", "harness": "harness/c18/cxx.cpp", "args": ["0", "1"], "expect_no": " unchecked "})
 
 
 # ---------------------------------------------------------------------------------------------
@@ -726,7 +822,8 @@ def run(ck):
     run_pure(ck, exe, c)
     libdir, pools, oom, cxx = build_real()
     ck.extra["libtbbmalloc"] = libdir
-    run_pools(ck, pools)
+    reset_defect = run_reset_race(ck, pools)
+    run_pools(ck, pools, reset_defect)
     run_oom(ck, oom, c)
     run_cxx(ck, cxx)
 
